@@ -9,7 +9,7 @@ SPEC = {
                  'three stages, messages): the same symbolic accepted table once plainly indexed and once with arbitrary '
                  '(repeated) symbolic index labels / extra column / permuted columns / other dtypes; equality of every table '
                  'entry, per-hit assignment and message decided per path by z3',
-    'bounds': {'quick': 'accepted tables of <= 2 hits (one ceilometer, first and second hits, any heights incl. NaN), index labels any '
+    'bounds': {'quick': 'accepted tables of <= 2 hits (one ceilometer; two ceilometers for the plain relabelling; first and second hits, any heights incl. NaN), index labels any '
                         'ints (repeats allowed), MSA symbolic or None, 5 layout variants',
                'thorough': 'every variant with and without MSA at 2 hits of one ceilometer; 2 ceilometers for three variants'},
     'outside': 'dtype coercions beyond the modelled ones (type as integral float, dt as int, ceilo as object): what astype does '
@@ -75,7 +75,7 @@ def h_ingest(E, N, C, pvar, variant):
 
 
 HARNESSES = [
-    H('H-ingest', h_ingest, quick=[(1, 1, 2, 0), (2, 1, 0, 0), (2, 1, 2, 0), (2, 1, 2, 1), (2, 1, 0, 2), (2, 1, 2, 4), (2, 1, 2, 5)],
+    H('H-ingest', h_ingest, quick=[(1, 1, 2, 0), (2, 1, 0, 0), (2, 1, 2, 0), (2, 1, 2, 1), (2, 1, 0, 2), (2, 1, 2, 4), (2, 1, 2, 5), (2, 2, 0, 0)],
       thorough=[(1, 1, 2, 0)] + [(2, 1, p, v) for p in (0, 2) for v in range(6)] + [(2, 2, 0, 0), (2, 2, 0, 5), (2, 2, 2, 0)],
       float_model='R', scripted=True,
       cover=['repeated index labels', 'non-decreasing repeated labels', 'shuffled labels', 'a hit cropped above the MSA'],
